@@ -92,8 +92,9 @@ class ArgumentToken(TextToken):
         self.arg = arg
 
 class ActionToken(TextToken):
-    def __init__(self, pos):
+    def __init__(self, pos, arg_end=False):
         super().__init__(pos, '')
+        self.arg_end = arg_end      # marks end of an inserted macro argument
 
 class VoidToken(TextToken):
     def __init__(self, pos):
